@@ -207,7 +207,7 @@ func (u *Unit) external(st *State, fr *Frame, in *ssa.Call, fn *ssa.Function, ar
 			if !(b.Len.IsInt && b.Len.I.Sign() == 0) {
 				u.S.Push()
 				u.S.Assert(Gt(b.Len, IntLit(0)))
-				void := u.S.CheckSat() == "unsat"
+				void := u.S.CheckSatT(u.Cfg.FeasMs) == "unsat"
 				u.S.Pop()
 				if !void {
 					u.writeBytes(st, "", b.Blk, b.Off, b.Len, func(j *Term) *Term { return Select(rnd, j) }, "rand.Read")
